@@ -393,8 +393,12 @@ def is_valid(spec, v, depth=0) -> bool:
     raise ValueError(spec)
 
 
+_CLEAR = [True]      # False inside history checks: consecutive calls share typelib's caches, as in a real process
+
+
 def call(fn, *a, **kw):
-    impl.clear_caches()
+    if _CLEAR[0]:
+        impl.clear_caches()
     try:
         with warnings.catch_warnings():
             warnings.simplefilter("ignore")
@@ -462,7 +466,7 @@ def diagnose_union(uspec, u):
     member (one the value is a valid instance of) produces for this value."""
     members = uspec[2]
     optional = any(strip_wrap(m)[0] == "none" for m in members)
-    res = {"ambiguous": False, "foreign": False, "noncanon": False, "detail": ""}
+    res = {"ambiguous": False, "foreign": False, "noncanon": False, "none_accepts": False, "detail": ""}
     if optional and u is None:
         return res
     own = [m for m in members if is_valid(m, u)]
@@ -475,6 +479,11 @@ def diagnose_union(uspec, u):
             if e is m:
                 break
             r = t_unmarshal(ann_of(e), w[1])
+            if r[0] == "ok" and strip_wrap(e)[0] == "none" and w[1] is not None:
+                # the None member must accept None only (C08); never part of the ambiguity clause or of a listed finding
+                res["none_accepts"] = True
+                res["detail"] += f"; the NoneType member accepts {w[1]!r}"
+                continue
             if r[0] == "ok":
                 res["ambiguous"] = True
                 res["detail"] = f"member {ann_of(e)!r} accepts the wire form {w[1]!r} written by member {ann_of(m)!r}"
@@ -513,6 +522,9 @@ def check_value(ann, spec, v, stats, ctx):
     ambiguous = any(d["ambiguous"] for d in diags)
     foreign = any(d["foreign"] for d in diags)
     noncanon = any(d["noncanon"] for d in diags)
+    if any(d["none_accepts"] for d in diags):
+        return _fail("none-member-accepts-non-none", ann, v, repr(r[1])[:300] if r[0] == "ok" else r[1], repr(v), ctx,
+                     wire=m[1], detail="; ".join(d["detail"] for d in diags if d["detail"])[:600], unions=len(pos))
     detail = "; ".join(d["detail"] for d in diags if d["detail"])[:600]
     if foreign and not (r[0] == "ok" and ambiguous):
         # root cause: the member whose marshaller answers first is not a member the value is an instance of
@@ -796,6 +808,23 @@ class Pong:
     ping: typing.Optional[Ping] = None
     many: dict[str, Ping] = dataclasses.field(default_factory=dict)
 
+@dataclasses.dataclass
+class Comment:
+    author: str
+    text: typing.Optional[str] = None
+    attachment: typing.Optional[pathlib.PurePosixPath] = None
+
+@dataclasses.dataclass(frozen=True)
+class Shift:
+    name: str
+    starts: datetime.time
+    ends: datetime.time
+
+class ShiftNT(typing.NamedTuple):
+    starts: datetime.time
+    ends: datetime.time
+    handover: typing.Optional[datetime.time] = None
+
 Tree = TypeAliasType("Tree", "dict[str, Tree] | int")
 UserId = typing.NewType("UserId", int)
 Name = typing.NewType("Name", str)
@@ -808,6 +837,114 @@ class Diamond:
     both: dict[str, tuple[Plain, ...]]
     fin: typing.Final[Ids] = dataclasses.field(default_factory=list)
 '''
+
+
+class EKw(enum.Enum):
+    null = "null"
+    none = "None"
+    true = "true"
+    one = "1"
+    lst = "[]"
+
+
+KEYWORD_TEXT = ["null", "None", "true", "True", "false", "1", "1.5", "[]", "{}", '""', "nan", "(1, 2)"]
+LITKW = typing.Literal["null", "None", "true", "1", "[]"]
+
+
+def _patterns():
+    out = []
+    for t in KEYWORD_TEXT:
+        try:
+            out.append(re.compile(t))
+        except re.error:
+            pass
+    return out
+
+
+def keyword_text_cases():
+    """every str-wired leaf under Optional / Union-with-None, at the root and at every kind of member position,
+    with values whose wire text spells a JSON / Python keyword, number or empty container"""
+    m = adv_module()
+    L = leaf_spec
+    leaves = [
+        (L(str), list(KEYWORD_TEXT)),
+        (L(pathlib.PurePosixPath), [pathlib.PurePosixPath(t) for t in KEYWORD_TEXT]),
+        (L(pathlib.PureWindowsPath), [pathlib.PureWindowsPath(t) for t in KEYWORD_TEXT[:6]]),
+        (L(pathlib.Path), [pathlib.Path(t) for t in KEYWORD_TEXT[:6]]),
+        (L(re.Pattern), _patterns()),
+        (L(LITKW), list(typing.get_args(LITKW))),
+        (L(EKw), list(EKw)),
+        (L(EStr), list(EStr)),
+        (L(ESMix), list(ESMix)),
+    ]
+    out = []
+    for leaf, values in leaves:
+        a = ann_of(leaf)
+        unions = [("union", typing.Optional[a], [leaf, ("none",)]),
+                  ("union", typing.Union[None, a], [("none",), leaf])]
+        try:
+            unions.append(("union", a | None, [leaf, ("none",)]))
+        except TypeError:
+            pass
+        for u in unions:
+            ua = ann_of(u)
+            for v in values:
+                out.append((u, v))
+            vs = list(values)
+            out.append((("seq", list[ua], list, u), [vs[0], None] + vs[1:]))
+            out.append((("map", dict[str, ua], dict, L(str), u), {f"k{i}": x for i, x in enumerate(vs + [None])}))
+            out.append((("tuple", tuple[ua, int], [u, L(int)]), (vs[1 % len(vs)], 1)))
+    text_f = ("union", typing.Optional[str], [L(str), ("none",)])
+    att_f = ("union", typing.Optional[pathlib.PurePosixPath], [L(pathlib.PurePosixPath), ("none",)])
+    comment = ("class", m.Comment, "dataclass", {"author": L(str), "text": text_f, "attachment": att_f}, m.Comment)
+    for t in KEYWORD_TEXT:
+        out.append((comment, m.Comment("bot", t, pathlib.PurePosixPath(t))))
+        out.append((comment, m.Comment(t, None, None)))
+    return [(ann_of(s), s, v) for s, v in out]
+
+
+def _tz(minutes):
+    return D.timezone(TD(minutes=minutes))
+
+
+def same_instant_cases():
+    """aware times / datetimes that compare (and hash) equal but carry different UTC offsets, in one value"""
+    m = adv_module()
+    L = leaf_spec
+    groups = [
+        [D.time(12, 0, tzinfo=UTC), D.time(14, 0, tzinfo=_tz(120)), D.time(7, 0, tzinfo=_tz(-300)),
+         D.time(17, 30, tzinfo=_tz(330))],
+        [D.time(14, 0, tzinfo=_tz(120)), D.time(12, 0, tzinfo=UTC)],
+        [D.time(1, 2, 3, 4, tzinfo=_tz(60)), D.time(0, 2, 3, 4, tzinfo=UTC), D.time(3, 47, 3, 4, tzinfo=_tz(165))],
+    ]
+    dgroups = [
+        [D.datetime(2020, 1, 2, 12, 0, tzinfo=UTC), D.datetime(2020, 1, 2, 14, 0, tzinfo=_tz(120)),
+         D.datetime(2020, 1, 2, 7, 0, tzinfo=_tz(-300)), D.datetime(2020, 1, 3, 1, 0, tzinfo=_tz(780))],
+        [D.datetime(1999, 12, 31, 23, 59, 59, 5, tzinfo=_tz(330)), D.datetime(1999, 12, 31, 18, 29, 59, 5, tzinfo=UTC)],
+    ]
+    out = []
+    for leaf_t, gs in ((D.time, groups), (D.datetime, dgroups)):
+        leaf = L(leaf_t)
+        opt = ("union", typing.Optional[leaf_t], [leaf, ("none",)])
+        for g in gs:
+            out.append((("seq", list[leaf_t], list, leaf), list(g)))
+            out.append((("seq", tuple[leaf_t, ...], tuple, leaf), tuple(reversed(g))))
+            out.append((("seq", collections.deque[leaf_t], collections.deque, leaf), collections.deque(g)))
+            out.append((("tuple", tuple[leaf_t, leaf_t], [leaf, leaf]), (g[0], g[1])))
+            out.append((("map", dict[str, leaf_t], dict, L(str), leaf), {f"k{i}": x for i, x in enumerate(g)}))
+            out.append((("seq", list[typing.Optional[leaf_t]], list, opt), [g[1], None, g[0]]))
+    shift = ("class", m.Shift, "dataclass", {"name": L(str), "starts": L(D.time), "ends": L(D.time)}, m.Shift)
+    snt = ("class", m.ShiftNT, "namedtuple",
+           {"starts": L(D.time), "ends": L(D.time),
+            "handover": ("union", typing.Optional[D.time], [L(D.time), ("none",)])}, m.ShiftNT)
+    for g in groups:
+        out.append((shift, m.Shift("s", g[0], g[1])))
+        out.append((shift, m.Shift("s", g[1], g[0])))
+        out.append((snt, m.ShiftNT(g[0], g[1], g[-1])))
+        out.append((("seq", list[m.Shift], list, shift), [m.Shift("a", g[0], g[0]), m.Shift("b", g[1], g[1])]))
+    singles = [(L(D.time), x) for g in groups for x in g] + [(L(D.datetime), x) for g in dgroups for x in g]
+    singles += [(L(D.time), x) for g in groups for x in reversed(g)]
+    return [(ann_of(s), s, v) for s, v in out], [(ann_of(s), s, v) for s, v in singles]
 
 
 def adv_module():
@@ -1214,7 +1351,8 @@ def corpus_cases():
 def eval_case(c):
     m = adv_module()
     ns = dict(m.__dict__)
-    ns.update({"re": re, "D": D, "EInt": EInt, "EStr": EStr, "ESMix": ESMix, "EIntEnum": EIntEnum, "LIT1": LIT1, "LIT2": LIT2})
+    ns.update({"re": re, "D": D, "EInt": EInt, "EStr": EStr, "ESMix": ESMix, "EIntEnum": EIntEnum, "LIT1": LIT1, "LIT2": LIT2,
+               "EKw": EKw, "LITKW": LITKW})
     ann = eval(c["type"], ns)
     v = eval(c["value"], ns)
     return ann, spec_of_ann(ann), v
@@ -1324,6 +1462,31 @@ def search(run: lib.Run, broken):
         c = codes.get(id(rec))
         if c is not None and (c & 7) == 7:
             stats["theorem_instances_checked"] += 1
+    # text that spells a keyword under Optional / Union-with-None, at every kind of position
+    for ann, spec, v in keyword_text_cases():
+        push(check_value(ann, spec, v, stats, {"source": "keyword-text-under-optional"}))
+    # equal instants at different offsets: in one value, then in consecutive calls that share typelib's caches
+    together, singles = same_instant_cases()
+    for ann, spec, v in together:
+        push(check_value(ann, spec, v, stats, {"source": "same-instant-in-one-value"}))
+    impl.clear_caches()
+    _CLEAR[0] = False
+    try:
+        history = []
+        for ann, spec, v in singles:
+            history.append(value_expr(v))
+            f = check_value(ann, spec, v, stats, {"source": "same-instant-consecutive-calls"})
+            if f is not None:
+                f["class"] = "roundtrip-after-history"
+                f["history"] = history[-6:]
+                f["replay"] = {"sequence": [{"type": ann_expr(a2), "value": value_expr(v2)}
+                                            for a2, _, v2 in singles[: len(history)]]}
+                f["key"] = json.dumps(["C01", "history", f["type"], f["value"]])
+                push(f)
+                break
+    finally:
+        _CLEAR[0] = True
+        impl.clear_caches()
     # adversarial pools
     for ann, spec, v in adv_class_cases(rng, run.budget(4, 25)):
         push(check_value(ann, spec, v, stats, {"source": "structured-flavours"}))
@@ -1383,6 +1546,20 @@ def _shape(f):
 
 def replay(payload):
     rp = payload.get("replay") or payload
+    if "sequence" in rp:
+        stats = collections.Counter()
+        impl.clear_caches()
+        _CLEAR[0] = False
+        try:
+            for c in rp["sequence"]:
+                ann, spec, v = eval_case(c)
+                f = check_value(ann, spec, v, stats, {"source": "replay-sequence"})
+                if f is not None:
+                    return {"fails": True, "failure": f}
+        finally:
+            _CLEAR[0] = True
+            impl.clear_caches()
+        return {"fails": False}
     if "type" in rp and "value" in rp and "tdesc" not in payload:
         try:
             ann, spec, v = eval_case(rp)
